@@ -6,6 +6,9 @@
    schema <env> <name> <upper> {<fname> <flower> <chain>}   -> grammar text
    clauses <env> <name> <upper> {...}                       -> clause bit mask
    ctr <spec>                          -> OK <name> <chain|~> | INVALID
+   oneline <s>                         -> " ".join(s.splitlines())
+   docname <envelope name|~>           -> name extract_schema_from_document gives the schema (~ : text without envelope line)
+   metaname <META TYPE|~>              -> name compile_gbnf_from_meta gives the schema (~ : no TYPE key)
    derive <bound> <csample> <text>     -> C|P words ;-sep    (value fragment of the first rule of text)
    read <cls> <w>                      -> value read from F::w
    accept <ck,ck,..> <cls> <w>         -> 1|0|? <value>
@@ -73,6 +76,9 @@ let handle l =
                    | CtOk (n, None) -> "OK " ^ tok_of_str n ^ " ~"
                    | CtOk (n, Some c) -> "OK " ^ tok_of_str n ^ " " ^ tok_of_str c
                    | CtInvalid -> "INVALID")
+  | ["oneline"; s] -> tok_of_str (one_line (str_of_tok s))
+  | ["docname"; e] -> tok_of_str (doc_schema_name (envelope_doc_name (if e = "~" then None else Some (str_of_tok e))))
+  | ["metaname"; t] -> tok_of_str (meta_schema_name (if t = "~" then None else Some (str_of_tok t)))
   | ["derive"; bound; cap; t] ->
       (* value fragment of the first rule of grammar text t: drop the 3 leading items ("NAME" "::" ws) *)
       (match field_value_alts (str_of_tok t) with
